@@ -893,3 +893,222 @@ Proof.
   unfold strip, strip_bt, with_lazy in *. cbn [bt recs header leaf_recs node_size] in *.
   rewrite Hn in W10. repeat split; assumption.
 Qed.
+
+(* ============================================================================================ *)
+(* 7. refinement to the specification map                                                        *)
+
+Lemma s_lookup_none n m : s_lookup n m = None <-> ~ In n (map fst m).
+Proof.
+  induction m as [|[k v] m IH]; cbn [s_lookup map In fst]; [tauto|].
+  destruct (bytes_eqb k n) eqn:E.
+  - apply bytes_eqb_eq in E. split; [discriminate|]. intro H. exfalso. apply H. left. exact E.
+  - apply bytes_eqb_neq in E. rewrite IH. tauto.
+Qed.
+
+Lemma s_lookup_remove n n' m :
+  s_lookup n' (s_remove n m) = if bytes_eqb n n' then None else s_lookup n' m.
+Proof.
+  induction m as [|[k v] m IH]; cbn [s_remove filter s_lookup fst]; [destruct (bytes_eqb n n'); reflexivity|].
+  fold (s_remove n m).
+  destruct (bytes_eqb k n) eqn:E; cbn [negb].
+  - apply bytes_eqb_eq in E. subst k. rewrite IH. destruct (bytes_eqb n n'); reflexivity.
+  - cbn [s_lookup]. rewrite IH. destruct (bytes_eqb k n') eqn:E2; [|reflexivity].
+    apply bytes_eqb_eq in E2. subst k. apply bytes_eqb_neq in E.
+    replace (bytes_eqb n n') with false; [reflexivity|]. symmetry. apply bytes_eqb_neq. congruence.
+Qed.
+
+Lemma s_lookup_update n v n' m :
+  s_lookup n' (s_update n v m) =
+  if bytes_eqb n n' then (match s_lookup n m with Some _ => Some v | None => None end) else s_lookup n' m.
+Proof.
+  destruct (bytes_eqb n n') eqn:B.
+  - apply bytes_eqb_eq in B. subst n'.
+    induction m as [|[k x] m IH]; [reflexivity|]. cbn [s_update map s_lookup fst]. fold (s_update n v m).
+    destruct (bytes_eqb k n) eqn:E.
+    + cbn [s_lookup fst]. rewrite E. reflexivity.
+    + cbn [s_lookup]. rewrite E. exact IH.
+  - induction m as [|[k x] m IH]; [reflexivity|]. cbn [s_update map s_lookup fst]. fold (s_update n v m).
+    destruct (bytes_eqb k n) eqn:E.
+    + apply bytes_eqb_eq in E. subst k. cbn [s_lookup fst]. rewrite B. exact IH.
+    + cbn [s_lookup]. rewrite IH. reflexivity.
+Qed.
+
+Lemma s_update_keys n v m : map fst (s_update n v m) = map fst m.
+Proof.
+  induction m as [|[k x] m IH]; [reflexivity|]. cbn [s_update map fst]. fold (s_update n v m).
+  destruct (bytes_eqb k n); cbn [fst]; rewrite IH; reflexivity.
+Qed.
+
+Lemma s_update_length n v m : List.length (s_update n v m) = List.length m.
+Proof. unfold s_update. apply map_length. Qed.
+
+Lemma s_remove_absent n m : ~ In n (map fst m) -> s_remove n m = m.
+Proof.
+  induction m as [|[k x] m IH]; intro H; [reflexivity|]. cbn [s_remove filter fst]. fold (s_remove n m).
+  cbn [map In fst] in H. destruct (bytes_eqb k n) eqn:E.
+  - apply bytes_eqb_eq in E. exfalso. apply H. left. exact E.
+  - cbn [negb]. rewrite IH; [reflexivity|]. intro A. apply H. right. exact A.
+Qed.
+
+Lemma s_remove_length n m : NoDup (map fst m) -> In n (map fst m) ->
+  S (List.length (s_remove n m)) = List.length m.
+Proof.
+  induction m as [|[k x] m IH]; intros Hd Hin; [contradiction|].
+  cbn [map fst] in Hd. inversion Hd as [|a l Hk Hd']; subst.
+  cbn [s_remove filter fst]. fold (s_remove n m).
+  destruct (bytes_eqb k n) eqn:E; cbn [negb List.length].
+  - apply bytes_eqb_eq in E. subst k. rewrite s_remove_absent by exact Hk. reflexivity.
+  - apply bytes_eqb_neq in E. cbn [map In fst] in Hin. destruct Hin as [A|A]; [contradiction|].
+    rewrite IH by assumption. reflexivity.
+Qed.
+
+Lemma s_remove_keys_incl n m k : In k (map fst (s_remove n m)) -> In k (map fst m).
+Proof.
+  unfold s_remove. rewrite !in_map_iff. intros (kv & E & H). apply filter_In in H. exists kv. tauto.
+Qed.
+
+Lemma s_remove_nodup n m : NoDup (map fst m) -> NoDup (map fst (s_remove n m)).
+Proof.
+  induction m as [|[k x] m IH]; intro Hd; [constructor|].
+  cbn [map fst] in Hd. inversion Hd as [|a l Hk Hd']; subst.
+  cbn [s_remove filter fst]. fold (s_remove n m).
+  destruct (negb (bytes_eqb k n)); [|apply IH; exact Hd'].
+  cbn [map fst]. constructor; [|apply IH; exact Hd'].
+  intro A. apply Hk. eapply s_remove_keys_incl. exact A.
+Qed.
+
+Lemma lookup_rec_mid_other h (a : list rec) x b : fst x <> h ->
+  lookup_rec h (a ++ x :: b) = lookup_rec h (a ++ b).
+Proof.
+  intro H. rewrite !lookup_rec_app. cbn [lookup_rec]. apply N.eqb_neq in H. rewrite H. reflexivity.
+Qed.
+
+(* the names of the history are hashed injectively *)
+Definition inj_on (U : list bytes) : Prop :=
+  forall a b, In a U -> In b U -> jenkins a = jenkins b -> a = b.
+
+Definition rel (U : list bytes) (s : bt2) (m : smap) : Prop :=
+  (forall n, In n U -> lookup_rec (jenkins n) (recs s) = s_lookup n m)
+  /\ List.length (recs s) = List.length m
+  /\ NoDup (hashes (recs s))
+  /\ NoDup (map fst m).
+
+Lemma id8_of_id7 (id : bytes) : List.length id = 7%nat -> firstn 8 (id ++ repeat 0 8) = id ++ [0].
+Proof.
+  intro H. do 8 (destruct id as [|? id]; try discriminate). reflexivity.
+Qed.
+
+Lemma lookup_rec_in h rs v : lookup_rec h rs = Some v -> In (h, v) rs.
+Proof.
+  induction rs as [|r rs IH]; cbn [lookup_rec]; [discriminate|].
+  destruct (fst r =? h) eqn:E.
+  - intro H. inversion H; subst. apply N.eqb_eq in E. left. destruct r; cbn in *; subst; reflexivity.
+  - intro H. right. apply IH. exact H.
+Qed.
+
+Lemma step_rel c U w st o :
+  cfg_ok c -> c_mode c = MOff -> winv c w -> (o = OStoreLoad -> next w < lim c) ->
+  inj_on U -> (forall n, In n (op_names o) -> In n U) ->
+  rel U (bt w) (s_map st) -> s_loaded st = negb (loaded_hdr (bt w) =? 0) ->
+  let '(w1, r1) := step c w o in
+  let '(st1, r2) := spec_step (max_records (ns_of c)) st o in
+  r1 = r2 /\ rel U (bt w1) (s_map st1) /\ s_loaded st1 = negb (loaded_hdr (bt w1) =? 0).
+Proof.
+  intros Hc Hm I Hb Hinj HU (R1 & R2 & R3 & R4) HL.
+  pose proof I as (W & Hn & Hs & Hl & Hx & Hld).
+  pose proof W as (W1 & W2 & W3 & W4 & W5 & W6 & W7 & W8 & W9 & W10 & W11 & W12 & W13).
+  destruct st as [m ld]. cbn [s_map s_loaded] in *.
+  destruct o as [n v|n v|n|n|n| |]; cbn [op_names] in HU;
+    try (assert (HnU : In n U) by (apply HU; left; reflexivity));
+    try (pose proof (R1 n HnU) as Rn; rewrite find_index_lookup in Rn).
+  - (* insert *)
+    cbn [step spec_step s_map s_loaded]. unfold insert_record.
+    destruct (find_index (recs (bt w)) (jenkins n) 0) as [i|] eqn:F.
+    + rewrite <- Rn. cbn [with_bt bt]. repeat split; assumption.
+    + rewrite <- Rn. rewrite Hn, R2.
+      destruct (max_records (ns_of c) <=? N.of_nat (List.length m)); [cbn [with_bt bt]; repeat split; assumption|].
+      unfold with_recs; cbn [with_bt bt recs okres s_map s_loaded loaded_hdr].
+      apply find_index_none in F.
+      split; [reflexivity|]. split; [|exact HL].
+      split; [|split; [|split]]; cbn [recs].
+      * intros n' Hn'. cbn [s_lookup]. destruct (bytes_eqb n n') eqn:E.
+        -- apply bytes_eqb_eq in E. subst n'.
+           apply (insert_sorted_lookup_new (recs (bt w)) (jenkins n, to7 v)). exact F.
+        -- apply bytes_eqb_neq in E.
+           rewrite insert_sorted_lookup_other; [apply R1; exact Hn'|].
+           cbn [fst]. intro A. apply E. apply Hinj; assumption.
+      * rewrite insert_sorted_length. cbn [List.length]. rewrite R2. reflexivity.
+      * eapply Permutation_NoDup; [symmetry; apply (Permutation_map fst (insert_sorted_perm _ _))|].
+        cbn [map fst]. constructor; assumption.
+      * cbn [map fst]. constructor; [|exact R4]. apply s_lookup_none. symmetry. exact Rn.
+  - (* update *)
+    cbn [step spec_step s_map s_loaded].
+    destruct (find_index (recs (bt w)) (jenkins n) 0) as [i|] eqn:F.
+    + destruct (update_record_some _ n v i F) as (pre & r & post & E & Hr & Hnp & Uu). rewrite Uu.
+      rewrite <- Rn. unfold with_recs; cbn [with_bt bt recs okres s_map s_loaded loaded_hdr].
+      split; [reflexivity|]. split; [|exact HL].
+      split; [|split; [|split]]; cbn [recs].
+      * intros n' Hn'. rewrite s_lookup_update. destruct (bytes_eqb n n') eqn:E2.
+        -- apply bytes_eqb_eq in E2. subst n'. rewrite <- Rn.
+           rewrite lookup_rec_app. apply lookup_rec_none in Hnp. rewrite Hnp.
+           cbn [lookup_rec fst snd]. rewrite Hr, N.eqb_refl. reflexivity.
+        -- apply bytes_eqb_neq in E2.
+           assert (Hne : jenkins n <> jenkins n') by (intro A; apply E2; apply Hinj; assumption).
+           rewrite lookup_rec_mid_other by (cbn [fst]; rewrite Hr; exact Hne).
+           rewrite <- (R1 n' Hn'), E. symmetry. apply lookup_rec_mid_other. rewrite Hr. exact Hne.
+      * rewrite s_update_length, <- R2, E, !app_length. reflexivity.
+      * rewrite hashes_update. rewrite E in R3. exact R3.
+      * rewrite s_update_keys. exact R4.
+    + unfold update_record. rewrite F. rewrite <- Rn. cbn [with_bt bt]. repeat split; assumption.
+  - (* search *)
+    cbn [step spec_step s_map s_loaded]. unfold search_record.
+    destruct (find_index (recs (bt w)) (jenkins n) 0) as [i|] eqn:F.
+    + rewrite <- Rn. split; [|repeat split; assumption].
+      f_equal. apply id8_of_id7.
+      destruct (find_index_some _ _ _ F) as (pre & r & post & E & -> & Hr & Hnp).
+      rewrite E, nth_app_exact. rewrite E in W13. destruct (Forall_rec_wf_mid _ _ _ W13) as (_ & [_ A] & _). exact A.
+    + rewrite <- Rn. repeat split; assumption.
+  - (* has *)
+    cbn [step spec_step s_map s_loaded]. unfold has_key.
+    destruct (find_index (recs (bt w)) (jenkins n) 0); rewrite <- Rn; repeat split; assumption.
+  - (* delete *)
+    cbn [step spec_step s_map s_loaded]. rewrite Hm, delete_off.
+    destruct (find_index (recs (bt w)) (jenkins n) 0) as [i|] eqn:F.
+    + destruct (remove_record_some _ n i F) as (pre & r & post & E & Hr & Hnp & Uu). rewrite Uu.
+      rewrite <- Rn. unfold with_recs; cbn [with_bt bt recs okres s_map s_loaded loaded_hdr].
+      split; [reflexivity|]. split; [|exact HL].
+      assert (Hpost : ~ In (jenkins n) (hashes post)).
+      { rewrite E in R3. unfold hashes in R3. rewrite map_app in R3. cbn [map] in R3.
+        apply NoDup_remove_2 in R3. rewrite Hr in R3. intro A. apply R3. apply in_or_app. right. exact A. }
+      assert (Hin : In n (map fst m)).
+      { destruct (s_lookup n m) eqn:Sl; [|discriminate].
+        destruct (in_dec (list_eq_dec N.eq_dec) n (map fst m)) as [A|A]; [exact A|].
+        apply s_lookup_none in A. congruence. }
+      split; [|split; [|split]]; cbn [recs].
+      * intros n' Hn'. rewrite s_lookup_remove. destruct (bytes_eqb n n') eqn:E2.
+        -- apply bytes_eqb_eq in E2. subst n'. apply lookup_rec_none.
+           unfold hashes. rewrite map_app. intro A. apply in_app_or in A. destruct A; [apply Hnp|apply Hpost]; assumption.
+        -- apply bytes_eqb_neq in E2.
+           assert (Hne : jenkins n <> jenkins n') by (intro A; apply E2; apply Hinj; assumption).
+           rewrite <- (R1 n' Hn'), E. symmetry. apply lookup_rec_mid_other. rewrite Hr. exact Hne.
+      * pose proof (s_remove_length n m R4 Hin) as L. rewrite <- R2, E, !app_length in L. cbn [List.length] in L.
+        rewrite app_length. lia.
+      * rewrite E in R3. unfold hashes in *. rewrite map_app in *. cbn [map] in R3.
+        apply NoDup_remove_1 in R3. exact R3.
+      * apply s_remove_nodup. exact R4.
+    + unfold remove_record. rewrite F. rewrite <- Rn. cbn [with_bt bt]. repeat split; assumption.
+  - (* store + load *)
+    rewrite storeload_ok by (try assumption; apply Hb; reflexivity).
+    cbn [spec_step s_map s_loaded bt recs loaded_hdr].
+    split; [reflexivity|]. split; [repeat split; assumption|].
+    symmetry. apply negb_true_iff. apply N.eqb_neq. destruct Hc as [_ (C1 & _)]. lia.
+  - (* rewrite + load *)
+    cbn [spec_step s_map s_loaded].
+    destruct (N.eq_dec (loaded_hdr (bt w)) 0) as [Z|Z].
+    + rewrite rewrite_refused by exact Z. rewrite HL, Z. cbn [N.eqb negb]. repeat split; try assumption; reflexivity.
+    + rewrite rewrite_ok by assumption. rewrite HL.
+      replace (loaded_hdr (bt w) =? 0) with false by (symmetry; apply N.eqb_neq; exact Z).
+      cbn [negb bt recs loaded_hdr s_map s_loaded].
+      split; [reflexivity|]. split; [repeat split; assumption|].
+      symmetry. apply negb_true_iff. apply N.eqb_neq. exact Z.
+Qed.
